@@ -150,6 +150,9 @@ func (k Keeper) LiquidateIndividualVault(ctx sdk.Context, vaultID uint64, liquid
 		}
 		length := k.vault.GetLengthOfVault(ctx)
 		k.vault.SetLengthOfVault(ctx, length-1)
+		// the auction settlement subtracts the whole debt (principal, interest and closing fee) from the pair's
+		// minted statistics, so interest and closing fee have to be part of them while the vault awaits its auction
+		k.vault.UpdateTokenMintedAmountLockerMapping(ctx, vault.AppId, vault.ExtendedPairVaultID, vault.InterestAccumulated.Add(vault.ClosingFeeAccumulated), true)
 
 		//Removing data from existing structs
 
